@@ -46,6 +46,8 @@ DRIVER = r'''
 #include <stdio.h>
 #include <stdint.h>
 #include <string.h>
+#include <stdlib.h>
+#include <stdbool.h>
 #include "Store.h"
 #include "Pt.h"
 #include "Lv.h"
@@ -53,6 +55,9 @@ DRIVER = r'''
 static void pv32(DiplomatU32View v) { printf("["); for (size_t i = 0; i < v.len; i++) printf("%s%u", i ? "," : "", v.data[i]); printf("]"); }
 static void pv16(DiplomatU16View v) { printf("["); for (size_t i = 0; i < v.len; i++) printf("%s%u", i ? "," : "", (unsigned)v.data[i]); printf("]"); }
 static void ps(DiplomatStringView v) { printf("\"%.*s\"", (int)v.len, v.data); }
+typedef struct Mine { int grows; int flushes; } Mine;
+static void mine_flush(DiplomatWrite* w) { ((Mine*)w->context)->flushes++; }
+static bool mine_grow(DiplomatWrite* w, size_t cap) { ((Mine*)w->context)->grows++; char* nb = (char*)realloc(w->buf, cap); if (!nb) return false; w->buf = nb; w->cap = cap; return true; }
 int main(void) {
   for (uint32_t n = 0; n < 6; n++) {
     Store* s = Store_new(n);
@@ -71,6 +76,16 @@ int main(void) {
     printf("\n");
     Store_destroy(s);
   }
+  /* the writeable as a C struct: a fixed buffer that is too small reports grow_failed; a caller-defined writeable is driven through its own grow / flush */
+  { Store* s = Store_new(12345); char small[4]; char big[32];
+    DiplomatWrite w1 = diplomat_simple_write(small, sizeof small); Store_wplain(s, 7, &w1);
+    DiplomatWrite w2 = diplomat_simple_write(big, sizeof big); Store_wplain(s, 7, &w2);
+    printf("simple small: failed=%d len=%zu cap=%zu | big: failed=%d len=%zu text=%.*s\n", (int)w1.grow_failed, w1.len, w1.cap, (int)w2.grow_failed, w2.len, (int)w2.len, w2.buf);
+    Mine m = { 0, 0 }; DiplomatWrite w3; memset(&w3, 0, sizeof w3);
+    w3.context = &m; w3.buf = (char*)malloc(2); w3.len = 0; w3.cap = 2; w3.grow_failed = false; w3.flush = mine_flush; w3.grow = mine_grow;
+    Store_wplain(s, 7, &w3); Store_wplain(s, 9, &w3);
+    printf("custom: grows=%d flushes=%d failed=%d len=%zu text=%.*s\n", m.grows > 0, m.flushes, (int)w3.grow_failed, w3.len, (int)w3.len, w3.buf);
+    free(w3.buf); Store_destroy(s); }
   { Pt p = { -7, 2.5, 9 }; Pt q = Pt_shift(p, 10, Lv_Mid);
     printf("pt sum=%.3f shift=%d,%.3f,%u\n", Pt_sum(p), (int)q.x, q.y, (unsigned)q.z); }
   printf("lv consts=%d,%d,%d,%d codes=%d,%d,%d,%d next=%d,%d,%d,%d\n", (int)Lv_High, (int)Lv_Mid, (int)Lv_Low, (int)Lv_Top,
@@ -83,7 +98,8 @@ int main(void) {
 '''
 
 
-def expected():
+def expected(writeable_struct=True):
+    """writeable_struct: the two lines only the C driver prints (it looks inside the DiplomatWrite struct)"""
     out = []
     for n in range(6):
         odd = n % 2 == 1
@@ -93,6 +109,9 @@ def expected():
         out.append(f"n{n} os={s if odd else 'N'} ods={s if odd else 'N'} osl={l32 if odd else 'N'} osl16={l16 if odd else 'N'} "
                    f"rsl={l32 if odd else 'E%d' % n} sl={l32} ou={n * 7 if odd else 'N'} wopt={'1:9-%d' % n if odd else '0:'} "
                    f"wres={'1:8+%d' % n if odd else '0:E8'} wplain=7={n} wstatic={'1:%d:4660' % n if n else '0:'}")
+    if writeable_struct:
+        out.append("simple small: failed=1 len=2 cap=3 | big: failed=0 len=7 text=7=12345")
+        out.append("custom: grows=1 flushes=2 failed=0 len=14 text=7=123459=12345")
     out.append("pt sum=4.500 shift=3,5.000,1")
     out.append("lv consts=3,1,0,7 codes=3,1,0,7 next=1,0,7,3")
     out.append("mx consts=0,5,6,3 codes=0,5,6,3 pick=1:6 pick0=0")
